@@ -42,7 +42,7 @@ def gen(r, tier, i):
     flowless0 = r.random() < 0.2
     return {'cell_ts': r.choice([0.5, 1.0, 1.5, 0.75]), 'dir_as': 'process' if flowless0 else r.choice(['process', 'process', 'step']),
             'initial_flowless': flowless0, 'script': script, 'base': r.choice([[], [], ['env']]),
-            'deriver': r.choice([None, 'steps', 'processes']), 'viewers': r.random() < 0.3, 'poke': r.random() < 0.4,
+            'deriver': r.choice([None, 'steps', 'processes']), 'viewers': r.random() < 0.3, 'poke': r.random() < 0.4, 'nested_cells': r.random() < 0.4,
             'viewer_ts': 0.5, 'run': run_len, 'extra': 3.0}
 
 
@@ -83,7 +83,7 @@ def run(spec):
 
     emits = [(i, ev) for i, ev in enumerate(m.events) if ev[0] == 'emit' and ev[1] == 'history']
     walks = [(ev[2], {w[1]: w for w in ev[4]}) for i, ev in emits]          # (time, {id: (path,id,tag,kind)})
-    cellish = lambda tag: tag.rsplit('.', 1)[-1] in ('led', 'f1', 'f2', 'drv', 'drv2')
+    cellish = lambda tag: tag.rsplit('.', 1)[-1] in ('led', 'led2', 'f1', 'f2', 'drv', 'drv2')
     # existence timeline
     born, died, moved_at = {}, {}, {}
     prev = {}
